@@ -17,6 +17,7 @@ type ExecVariant struct {
 	GCProb   float64 `json:"gc_prob,omitempty"`  // pool flush (runtime.GC) before a step
 	Seed     uint64  `json:"seed,omitempty"`
 	Sched    string  `json:"sched,omitempty"`    // controlled worker schedule policy ("" = free running)
+	FailEncode int   `json:"fail_encode,omitempty"` // the k-th element Encode call of every deterministic commit fails once (the commit is then retried)
 }
 
 func (v ExecVariant) String() string { b, _ := json.Marshal(v); return string(b) }
@@ -60,6 +61,28 @@ func execForDigest(tr *Trace, variant ExecVariant, stats *Stats) ([]commitPoint,
 			st.Workers = variant.Workers
 		}
 		var v *Violation
+		if isCommit && variant.FailEncode > 0 && flavourName(st.Flavour) == "fc" {
+			// a commit rejected by an encoder error: the deterministic commit encodes everything before it
+			// writes anything, so the registers after the failed attempt must not depend on the variant either
+			w.Ctl.Reset()
+			w.Ctl.FailAt["encode"] = variant.FailEncode
+			fired0 := w.Ctl.Fired["encode"]
+			w.Ledger.BeginPhase("commit-failing", true)
+			err := w.commitOnce("fc", st.Workers)
+			w.Ledger.BeginPhase("op", false)
+			fired := w.Ctl.Fired["encode"] > fired0
+			w.Ctl.Reset()
+			if fired {
+				stats.Inc("fault.callback.encode")
+				if err == nil {
+					return points, w.Results, w.viol("det.outcome", "deterministic commit whose encoder failed returned no error")
+				}
+				points = append(points, commitPoint{Step: i, Flavour: "fc-failed", State: ledgerDigest(w.Ledger)})
+			} else if err != nil {
+				return points, w.Results, w.viol("commit.error", "commit failed without the injected fault firing: %v", err)
+			}
+			logStart = len(w.Ledger.Log)
+		}
 		if isCommit && variant.Sched != "" {
 			v = w.execCommitScheduled(&st, variant, r)
 		} else {
@@ -99,6 +122,9 @@ func comparePoints(a, b []commitPoint, what string) *Violation {
 		x, y := a[i], b[i]
 		if x.State != y.State {
 			return &Violation{Class: "det.bytes", Step: x.Step, Msg: fmt.Sprintf("registers after the commit at step %d differ under %s (%s vs %s)", x.Step, what, x.State, y.State)}
+		}
+		if x.Flavour == "fc-failed" {
+			continue
 		}
 		if x.Flavour == "fc" {
 			if len(x.Writes) != len(y.Writes) {
@@ -159,7 +185,7 @@ func init() {
 		Variant ExecVariant `json:"variant"`
 	}
 	pair := func(tr *Trace, variant ExecVariant, agg *Stats) (*Violation, []commitPoint) {
-		base, _, v := execForDigest(tr, ExecVariant{}, NewStats())
+		base, _, v := execForDigest(tr, ExecVariant{FailEncode: variant.FailEncode}, NewStats())
 		if v != nil {
 			return &Violation{Class: "base." + v.Class, Step: v.Step, Msg: v.Msg}, base
 		}
@@ -212,6 +238,7 @@ func init() {
 			{Workers: []int{1, 2, 3, 8, 64}[vr.Intn(5)], Seed: vr.U64()},
 			{GCProb: 0.15, Seed: vr.U64()},
 			{Seed: vr.U64()}, // plain repetition: new map iteration orders
+			{Workers: []int{1, 1, 2, 8}[vr.Intn(4)], FailEncode: vr.Range(1, 40), Seed: vr.U64()},
 		}
 		if tier == "thorough" {
 			variants = append(variants, ExecVariant{Workers: []int{1, 2, 3, 8, 64}[vr.Intn(5)], GCProb: 0.3, Seed: vr.U64()}, ExecVariant{Seed: vr.U64()})
@@ -224,6 +251,8 @@ func init() {
 			switch {
 			case variant.Sched != "":
 				agg.Inc("variant.sched")
+			case variant.FailEncode > 0:
+				agg.Inc("variant.fail-encode")
 			case variant.Workers > 0:
 				agg.Inc("variant.workers")
 			case variant.GCProb > 0:
